@@ -21,10 +21,26 @@ PARTIAL = (
     "run_noshare); (3) non-receiver operands are unchanged; the sparse iterator's skip() keeps the observation and provably "
     "changes the representation; (4) the InSitu entry idiom (clone-or-Set, then a body that writes only its work matrix) writes "
     "nothing of the caller without InSitu and only the named buffer with it; Slice/T/Append are aliases (stated both ways). "
-    "NOT proved / partial: the entry-point theorem is about the generic wrapper with an abstract body (body_frames); that each "
+    "(5, round 2) HISTORIES with a persistent caller-owned InSitu struct: abstract heap model (any content type, a call = an "
+    "arbitrary state transformer, the struct = the locations it references, the caller creates inputs / buffers between calls); "
+    "under the two frame conditions per call — F1 writes only locations the struct referenced before the call or new ones, F2 "
+    "stores no reference to a pre-existing object into the struct (footprint(struct after) within footprint(struct before) + new "
+    "allocations) — EVERY history leaves EVERY object the caller holds (inputs of all earlier calls, returned objects that do not "
+    "alias the struct) as it was when he obtained it, and the struct never references such an object; F2 is necessary "
+    "(retained_reference_breaks_history_refuted = the seeded regression `inSitu.H = a`); the concrete clone-or-Set wrapper over "
+    "C10's heap with the buffer threaded through any number of calls writes only the caller's own buffer "
+    "(entry_history_writes_only_the_callers_buffer; the retain variant is refuted on a 2-call history). "
+    "NOT proved / partial: the entry-point theorems are about the generic wrapper with an abstract body (body_frames / body_ok); that each "
     "concrete algorithm of /repo/algorithm is such a body is NOT proved — for all 29 Run* entry points x 1155 option combinations "
     "and the 42 distribution constructors the harness's before/after snapshot comparison (evaluated in Coq, bit-exact) is the "
-    "supporting runtime evidence, not a proof; sparse matrices (tmp1/tmp2 sharing of SLICE) are covered only through C11's "
+    "supporting runtime evidence, not a proof; likewise stream H (all 15 entry points that take an InSitu struct x all ordered "
+    "pairs of per-call option settings on an initially empty struct + caller-supplied buffers / the input itself as buffer, 2-4 "
+    "calls, fresh inputs per call, every call under a 2 s deadline; 13 estimators through SetData / Estimate / GetEstimate / "
+    "EstimateOnData / Clone): the two frame conditions are checked per call on the real execution (F1 by SHA-256 digests of the "
+    "bit patterns of the full observable state of everything the caller holds, after every call; F2 by storage identity from a "
+    "reflection walk over the struct and the objects), decided by vm_compute (CorrH.hcheck) — runtime evidence that the real bodies "
+    "satisfy body_ok on the executed histories, not a proof that they do on all; returned objects that alias the struct / the "
+    "estimator are listed in the evidence, not protected; sparse matrices (tmp1/tmp2 sharing of SLICE) are covered only through C11's "
     "whole-matrix model and the runtime stream; slice capacity of Go vectors is outside ModelS (known finding F-C12-APPEND-SLICE); "
     "derivatives of Real matrix elements are covered by ModelS vectors, not ModelM.")
 
@@ -123,7 +139,9 @@ def run(ctx):
     ctx.cov["trusted_base"] = vlib.TRUSTED_BASE_COMMON + [
         "models imported from other properties: C01/Model.v (+ C01/Corr.v float instance), C10/Gen.v+Model.v (+ ProofsViews), C11/Model.v (+ proofs)",
         "hook /repo/verif_c12.go (address of a dense matrix's backing array), hooks verif_c10.go / verif_c11*.go (read-only dumps)",
-        "entry-point stream: the role table of harness/c12/entry (which objects are inputs, InSitu buffers, documented output arguments)"]
+        "entry-point stream: the role table of harness/c12/entry (which objects are inputs, InSitu buffers, documented output arguments)",
+        "stream H: harness/c12/entry/footprint.go (reflection walk: every pointer target, backing array up to capacity and map header "
+        "reachable from an object, library types only) as the definition of storage identity; SHA-256 digests of snapshots"]
     ctx.cov["partial"] = PARTIAL
     ok, failures = vlib.proof_stage(ctx, TARGETS, PROPS)
     thms = vlib.theorem_names(os.path.join(vlib.COQ, "C12/Props.v"))
